@@ -9,14 +9,18 @@
 (* hold `disk`; every TLSConfig object that exists holds its own copy of   *)
 (* the certificate: the object the listener's GetCertificate callback      *)
 (* reads ("listener"), the object the caller passed to New ("caller"), and *)
-(* the clone every GetExportOptions() returns ("snapshot").                *)
+(* the clones GetExportOptions() returns ("snapshot": fetched after Listen, *)
+(* "pre-snapshot": fetched before Listen and kept).                        *)
 (* ReloadCertificates(obj) loads disk into obj.  Sharing = the repaired    *)
 (* design in which clones share one certificate holder (F21).              *)
 (***************************************************************************)
 EXTENDS TLSPolicyOps, TLC
 
 CONSTANTS Certs,     \* certificates that can be on disk, e.g. {"A", "B", "C"}
-          Sharing    \* TRUE: Clone() shares the certificate holder (repair of F21)
+          Sharing,   \* which TLSConfig objects share the listener's certificate holder:
+                     \*   "none" every clone has its own (F21); "lazy" only clones made after the listener was
+                     \*   built (a defect class); "all" a TLSConfig and all its clones, whenever made (the repair)
+          SkipSet, SuiteSet   \* values of InsecureSkipVerify / CipherSuites explored
 
 VARIABLES cfg,       \* settings the server was started with
           started,   \* Listen has been called
@@ -27,7 +31,7 @@ VARIABLES cfg,       \* settings the server was started with
           pending    \* a reload through GetExportOptions().TLS returned nil since the last rotation: must now be presented
 vars == <<cfg, started, listening, last, live, disk, pending>>
 
-NoCfg  == [min |-> 0, max |-> 0, auth |-> "none", ca |-> FALSE]
+NoCfg  == [min |-> 0, max |-> 0, auth |-> "none", ca |-> FALSE, skip |-> FALSE, suites |-> "default"]
 NoLast == [seen |-> FALSE, cl |-> [lo |-> 10, hi |-> 10, cert |-> "none"], out |-> [ok |-> FALSE, ver |-> 0], served |-> "A"]
 
 Init == /\ cfg = NoCfg /\ started = FALSE /\ listening = FALSE /\ last = NoLast
@@ -45,21 +49,27 @@ RotateOnDisk(c) == /\ listening /\ c # disk
                    /\ disk' = c /\ pending' = "none"
                    /\ UNCHANGED <<cfg, started, listening, last, live>>
 
-\* ReloadCertificates on the TLS settings returned by GetExportOptions (the documented step)
+\* ReloadCertificates on the TLS settings returned by GetExportOptions (the documented step),
+\* fetched now (after Listen) ...
 ReloadSnapshot == /\ listening
-                  /\ live' = IF Sharing THEN disk ELSE live    \* a fresh clone has its own holder
+                  /\ live' = IF Sharing \in {"lazy", "all"} THEN disk ELSE live    \* "none": a fresh clone has its own holder
                   /\ pending' = disk
                   /\ UNCHANGED <<cfg, started, listening, last, disk>>
+\* ... or fetched before the listener was built and kept by the application
+ReloadPreSnapshot == /\ listening
+                     /\ live' = IF Sharing = "all" THEN disk ELSE live
+                     /\ pending' = disk
+                     /\ UNCHANGED <<cfg, started, listening, last, disk>>
 \* ReloadCertificates on the object the caller handed to New (cloned before the listener was built;
 \* with the shared holder the caller's object and its clones hold the same certificate)
 ReloadCaller == /\ listening
-                /\ live' = IF Sharing THEN disk ELSE live
+                /\ live' = IF Sharing = "all" THEN disk ELSE live
                 /\ UNCHANGED <<cfg, started, listening, last, disk, pending>>
 
-Next == \/ \E c \in Cfgs : Start(c)
+Next == \/ \E c \in CfgsOver(SkipSet, SuiteSet) : Start(c)
         \/ \E cl \in Clients : Hello(cl)
         \/ \E c \in Certs : RotateOnDisk(c)
-        \/ ReloadSnapshot \/ ReloadCaller
+        \/ ReloadSnapshot \/ ReloadPreSnapshot \/ ReloadCaller
 
 Spec == Init /\ [][Next]_vars
 
